@@ -1218,3 +1218,121 @@ def live_inventories() -> Tuple[Dict[str, Tuple[str, bool]], List[str]]:
     _, nodes, _ = build(case)
     kinds = sorted({type(ni).__name__ for n in nodes for ni in n.network_interface.values()})
     return reg, kinds
+
+
+# ------------------------------------------------------------------------------------------------ routes registered at run time
+RT_TARGETS = (("OFF", 0, 0), ("OFF", 2, 2), ("SHUTTING_DOWN", 2, 2), ("BOOTING", 2, 2))
+
+
+def _rt_apps() -> List[str]:
+    import primaite.game.game  # noqa: F401  (registers every application class)
+    from primaite.simulator.system.applications.application import Application
+    return sorted(Application._registry)
+
+
+def runtime_install_cases() -> List[dict]:
+    """an application installed DURING the episode (through the `software_manager application install` request, and through
+    `SoftwareManager.install`, the two run-time registration sites), on a computer and a server, every application class of the
+    registry that the node does not carry yet; then the node is taken to OFF (instantly / after the countdown), SHUTTING_DOWN or
+    BOOTING, and EVERY leaf of the node's live request tree (every verb of every route, those registered at run time included)
+    is sent"""
+    out = []
+    for cls in ("computer", "server"):
+        for app in _rt_apps():
+            for via in ("request", "software_manager"):
+                for target, up, down in RT_TARGETS:
+                    out.append({"kind": "rtinstall", "cls": cls, "app": app, "via": via, "target": target, "up": up, "down": down})
+    return out
+
+
+def _live_leaves(rm, prefix: Tuple, depth: int = 0) -> List[Tuple]:
+    """every path of a live request tree; a route whose function is another manager — or a bound method of a component that owns
+    one (`apply_request`, the shape of seeded C11-h) — is descended into"""
+    from primaite.simulator.core import RequestManager
+    out = []
+    for key, rt in rm.request_types.items():
+        f = rt.func
+        sub = f if isinstance(f, RequestManager) else getattr(getattr(f, "__self__", None), "_request_manager", None)
+        if isinstance(sub, RequestManager) and depth < 8:
+            inner = _live_leaves(sub, prefix + (key,), depth + 1)
+            out += inner if inner else [prefix + (key,)]
+        else:
+            out.append(prefix + (key,))
+    return out
+
+
+def run_rtinstall(case: dict) -> Tuple[List[str], Dict[str, int]]:
+    """Returns (failures `oracle|cls|detail`, histogram)."""
+    import json as _json
+    from primaite.simulator.network.hardware.node_operating_state import NodeOperatingState
+    from primaite.simulator.system.applications.application import Application
+    hist: Dict[str, int] = {}
+    fails: List[str] = []
+    cls, app = case["cls"], case["app"]
+    sim, nodes, _ = build(pair_case(case["up"], case["down"], 1, 1, [], cls=(cls, "computer")))
+    n = nodes[0]
+    host = n.config.hostname
+    t = [0]
+
+    def tick():
+        sim.pre_timestep(t[0])
+        sim.apply_timestep(t[0])
+        t[0] += 1
+
+    def req(path):
+        try:
+            return sim.apply_request(["network", "node", host, *path], {}).status
+        except Exception as e:
+            return f"raised:{type(e).__name__}: {e}"
+    had = app in n.software_manager.software
+    if case["via"] == "request":
+        st = req(["software_manager", "application", "install", app])
+        if st != "success":
+            fails.append(f"runtime-install-refused-while-on|{cls}|{app}: {st}")
+            return fails, hist
+    elif not had:
+        n.software_manager.install(Application._registry[app])
+    hist["installed-at-run-time" if not had else "already-installed"] = 1
+    for _ in range(4):
+        tick()
+    inst = n.software_manager.software.get(app)
+    if inst is None or app not in n._application_request_manager.request_types:
+        fails.append(f"runtime-install-left-no-route|{cls}|{app}")
+        return fails, hist
+    app_leaves = [p for p in _live_leaves(n._request_manager, ()) if p[:2] == ("application", app)]
+    hist["verbs-of-the-installed-application"] = len(app_leaves)
+    if not app_leaves:
+        fails.append(f"runtime-install-left-no-route|{cls}|{app}: no leaf below application/{app}")
+    # --- take the node out of ON
+    if req(["shutdown"]) != "success":
+        fails.append(f"shutdown-refused-while-on|{cls}|{app}")
+        return fails, hist
+    if case["target"] in ("OFF", "BOOTING"):
+        for _ in range(case["down"] + 1 if case["down"] > 0 else 0):
+            tick()
+    if case["target"] == "BOOTING":
+        req(["startup"])
+    if n.operating_state.name != case["target"]:
+        fails.append(f"rig-did-not-reach-target|{cls}|{n.operating_state.name} != {case['target']}")
+        return fails, hist
+    leaves = _live_leaves(n._request_manager, ())
+    hist["leaves-sent"] = 0
+    before = _json.dumps(n.describe_state(), sort_keys=True, default=str)
+    st_before = n.operating_state
+    only = tuple(case["only"]) if case.get("only") else None    # a replay sends the one failing request
+    for p in leaves:
+        if p == ("startup",) and case["target"] == "OFF":
+            continue   # the one request an OFF node accepts
+        for tail in ((), ("x",)):
+            if only is not None and tuple(map(str, p + tail)) != only:
+                continue
+            s = req(list(p) + list(tail))
+            hist["leaves-sent"] += 1
+            rt = "runtime" if p[:2] == ("application", app) else "other"
+            hist[f"answer:{rt}:{s.split(':')[0]}"] = hist.get(f"answer:{rt}:{s.split(':')[0]}", 0) + 1
+            if s != "failure":
+                fails.append(f"runtime-tree-request-accepted-while-not-on|{cls}|{'/'.join(map(str, p + tail))} -> {s} with the node {case['target']} "
+                             f"({app} installed at run time via {case['via']})")
+    if n.operating_state != st_before or _json.dumps(n.describe_state(), sort_keys=True, default=str) != before:
+        fails.append(f"refused-requests-changed-the-node|{cls}|{case['target']} ({app} via {case['via']})")
+    return fails, hist
